@@ -3,7 +3,8 @@
 
    A docstring is a sequence of lines; a line is [k, id]:
      k = "T" prose text (opaque id), "B" blank, "I" indented prose, "D" doctest line, "U" a dashed underline of the prose
-     line above it (a sub-heading in the long description / a `Notes` heading in the footer), "S" a line of the parameter/return
+     line above it (a sub-heading in the long description / a `Notes` heading in the footer), "K" a prose line that BEGINS WITH A SECTION
+     KEYWORD used as an ordinary word ("Raises the alarm as soon as ...", "Returns nothing when ...", "Args are forwarded ..."), "S" a line of the parameter/return
      section (id = position inside the section; the section of a style may contain blank separator lines "SB").
    doc = header \o section(style) \o footer, written at indentation level `indent`; its first line stands on a line of its own below the
    opening quotes (first = "own") or right behind them (first = "quotes", PEP 257's one-liner position: that line carries NO indentation).
@@ -19,8 +20,9 @@ CONSTANTS Enabled, Shard, NShards
 Styles == <<"rest", "google", "numpydoc">>
 StyleSet == {"rest", "google", "numpydoc"}
 HeaderShapes == {<<"T">>, <<"T", "B", "T">>, <<"T", "B", "T", "T">>, <<"T", "B", "I">>, <<"T", "B", "D", "B", "T">>, <<"T", "T">>,
-                 <<"T", "B", "T", "U", "T">>, <<"T", "B", "T", "U", "B", "T">>}
-FooterShapes == {<<>>, <<"B", "T">>, <<"B", "D", "D">>, <<"B", "T", "B", "T">>, <<"B", "T", "U", "T">>}
+                 <<"T", "B", "T", "U", "T">>, <<"T", "B", "T", "U", "B", "T">>,
+                 <<"T", "B", "K", "T">>, <<"T", "B", "T", "K">>, <<"K", "B", "T">>}
+FooterShapes == {<<>>, <<"B", "T">>, <<"B", "D", "D">>, <<"B", "T", "B", "T">>, <<"B", "T", "U", "T">>, <<"B", "K">>}
 \* the route a conversion takes: the docstring parser + emitter directly, or a function definition parsed and re-emitted
 \* (the path `doctrans` takes: the original docstring is carried alongside the IR)
 \* "ir": the docstring parser, then the emitter from the interface description ALONE (header and footer travel inside its `doc` field:
@@ -43,7 +45,7 @@ FirstS(d) == CHOOSE i \in 1..Len(d) : IsSection(d[i]) /\ \A j \in 1..(i - 1) : ~
 LastS(d) == CHOOSE i \in 1..Len(d) : IsSection(d[i]) /\ \A j \in (i + 1)..Len(d) : ~IsSection(d[j])
 Split(d) == <<SubSeq(d, 1, FirstS(d) - 1), SubSeq(d, FirstS(d), LastS(d)), SubSeq(d, LastS(d) + 1, Len(d))>>
 Restyle(d, to, sk) == Split(d)[1] \o Number(SectionOfKind(to, sk), 200) \o Split(d)[3]
-Prose(s) == SelectSeq(s, LAMBDA l : l.k \in {"T", "I", "D", "U"})
+Prose(s) == SelectSeq(s, LAMBDA l : l.k \in {"T", "I", "D", "U", "K"})
 
 \* the named deviation: at indentation >= 1 a blank separator inside the section is re-indented by the split
 \* (a docstring that sits in a function is written one level deeper than the function)
